@@ -7,6 +7,7 @@ from .. import paths
 from ..core import FUNC, call_attr, calls_in, const, dotted, is_const, kwarg, norm, slice_parts, text, walk_local
 
 EXPLANATION = [
+    'C14.dh-validates: in both back ends every return of EccKey.dh follows the validated ECDH computation on the coordinates it was given (path rule), and dh stores nothing on the key object (no result cache that could answer before validation).',
     'C14.jacobian-add: in _JacobianPoint.__add__ every assignment of U1, U2, S1, S2 is the polynomial X1*Z2^2, X2*Z1^2, Y1*Z2^3, Y2*Z1^3 (compared as polynomials, modulo p); an unscaled shortcut is accepted only under the guard that the other operand has Z = 1.',
     'C14.scalar-range: any guard the built-in back end puts on a private scalar (from_private_key_bytes) accepts the whole range [1, n-1] (range(a, b) needs a <= 1 and b >= n; comparisons with n must not refuse n - 1), so both back ends derive a key for every valid scalar.',
     'C14.reject-then-leave: when the SMP session rejects a peer value (e.g. a public key that is not on the curve) it stops: no key is derived and nothing more is sent on that path (same rule as C13.fail-then-leave).',
@@ -550,7 +551,38 @@ def reject_then_leave(ctx):
     c13.fail_then_leave(ctx, rule='C14.reject-then-leave')
 
 
+def dh_validates(ctx):
+    """Every value EccKey.dh returns comes out of the curve's ecdh_shared_secret (which checks that the peer point is on
+    the curve) applied to *these* coordinates: no return before it (a cache keyed by x alone would answer for (x, y') off
+    the curve)."""
+    R, p = ctx.r, ctx.p
+    rule = 'C14.dh-validates'
+    n = 0
+    for q in ('bumble.crypto.builtin.EccKey.dh', 'bumble.crypto.cryptography.EccKey.dh'):
+        fn = p.find(q)
+        if fn is None:
+            R.bad(rule, q, 'anchor missing')
+            continue
+        n += 1
+
+        class D(paths.Domain):
+            def event(self, node, v):
+                if isinstance(node, ast.Call) and call_attr(node) in ('ecdh_shared_secret', 'exchange', 'public_key'):
+                    return (True,)
+                return (v,)
+
+            def ret(self, node, v):
+                return 'value' if node.value is not None else 'none'
+        res = paths.run(fn, D(), False)
+        early = [' '.join(w) for k, st_ in res.items() if k.startswith('ret:') for v, w in st_.items() if not v]
+        stores = [x for x in ast.walk(fn) if isinstance(x, (ast.Attribute, ast.Subscript)) and isinstance(x.ctx, ast.Store) and (dotted(x if isinstance(x, ast.Attribute) else x.value) or '').startswith('self.')]
+        R.check(not early and not stores, rule, q, 'every return follows the validated computation on the given coordinates; nothing is remembered between calls',
+                'dh() can return a value without having run the on-curve check on the coordinates it was given (or keeps results between calls): an off-curve (x, y\') whose x was seen before is answered with a shared secret instead of being rejected', p.loc(fn), early[:2])
+    R.check(n == 2, rule, 'EccKey.dh | both back ends', f'{n} implementations', f'{n} implementations found')
+
+
 RULES = [
+    ('C14.dh-validates', dh_validates),
     ('C14.jacobian-add', jacobian_add),
     ('C14.scalar-range', scalar_range),
     ('C14.reject-then-leave', reject_then_leave),
